@@ -2,7 +2,7 @@
    usage: driver <mode>
    modes: c15    input: hex bytes
           c15enc input: hex strings separated by ,
-          c13    input: <codec>;<read script>      codec = lines | lp | lpd | bytes
+          c13    input: <codec>;<read script>      codec = lines | lp | lpd | lps | bytes
                         read script = comma separated  c<hex> (chunk) | p (Pending) | z (0-byte read) | e (io error)
           c14    input: <codec>;<write answers>;<flush answers>;<shutdown answers>;<ops>
                         write answers  a<k> | p | z | e     flush/shutdown answers  o | p | e
@@ -86,7 +86,7 @@ let show_res show_item (r, calls) =
    | Item a -> "I" ^ show_item a) ^ "@" ^ string_of_int (int_of_nat calls)
 
 let show_lines_item = function IOk s -> "O:" ^ blob s | IErr -> "E"
-let show_lp_item = function LOk p -> "O:" ^ blob p | LBadHdr -> "H" | LTrunc -> "T" | LRemaining -> "R"
+let show_lp_item = function LOk p -> "O:" ^ blob p | LBadHdr -> "H" | LTrunc -> "T" | LRemaining -> "R" | LEnd -> "S"
 let show_bytes_item = function BOk p -> "O:" ^ blob p | BRemaining -> "R"
 
 let c13 line =
@@ -112,6 +112,7 @@ let c13 line =
   | "lines" -> go decode decode_eof show_lines_item
   | "lp" -> go lp_decode lp_decode_eof show_lp_item
   | "lpd" -> go lp_decode lpd_decode_eof show_lp_item
+  | "lps" -> go lp_decode lps_decode_eof show_lp_item
   | "bytes" -> go bytes_decode bytes_decode_eof show_bytes_item
   | c -> failwith ("unknown codec " ^ c)
 
